@@ -44,12 +44,16 @@ def g_items(draw, max_items=None):
     c["pre_use"] = gen.choice(draw, ["none", "none", "enroll", "fit"])
     c["np_seed"] = gen.integer(draw, 0, 9999)
     c["dim_t"] = gen.integer(draw, 1, 3)
+    # accepted by the constructor (and documented as ignored): must not make the bag differ from the list
+    c["iv_threshold"] = gen.choice(draw, [None, None, 1e-12, 1e-3])
     return c
 
 
 def layout(draw, n):
-    kind = gen.choice(draw, ["from_sequence", "from_delayed", "from_delayed"])
-    if kind == "from_sequence":
+    kind = gen.choice(draw, ["from_sequence", "from_delayed", "from_delayed", "mapped"])
+    if kind in ("from_sequence", "mapped"):
+        # "mapped": the elements are produced lazily (from_sequence(...).map(...)), as when statistics are computed
+        # inside the bag; a partition is then a one-shot iterator, not a list
         return {"kind": kind, "npartitions": gen.integer(draw, 1, n)}
     sizes = gen.composition(draw, n, max_parts=gen.choice(draw, [7, 7, None]))
     # sprinkle empty partitions
@@ -63,12 +67,24 @@ def layout(draw, n):
     return {"kind": kind, "sizes": out}
 
 
+class _Getter:
+    """Picklable element producer for lazily built bags."""
+
+    def __init__(self, items):
+        self.items = items
+
+    def __call__(self, i):
+        return self.items[int(i)]
+
+
 def make_bag(stats, lay):
     import dask
     import dask.bag as db
 
     if lay["kind"] == "from_sequence":
         return db.from_sequence(stats, npartitions=int(lay["npartitions"]))
+    if lay["kind"] == "mapped":
+        return db.from_sequence(list(range(len(stats))), npartitions=int(lay["npartitions"])).map(_Getter(stats))
     parts, i = [], 0
     for s in lay["sizes"]:
         parts.append(dask.delayed(list)(stats[i:i + s]))
@@ -79,6 +95,7 @@ def make_bag(stats, lay):
 def partition_sizes(lay, n):
     if lay["kind"] == "from_delayed":
         return list(lay["sizes"])
+    lay = dict(lay, kind="from_sequence")
     import dask.bag as db
 
     b = db.from_sequence(list(range(n)), npartitions=int(lay["npartitions"]))
@@ -91,7 +108,8 @@ def train(case, data, y):
     if case["estimator"] == "ivector":
         ubm = sut.make_gmm(case["ubm"])
         np.random.seed(case["np_seed"])
-        m = IVectorMachine(ubm, dim_t=case["dim_t"], max_iterations=case["em"], update_sigma=True)
+        m = IVectorMachine(ubm, dim_t=case["dim_t"], max_iterations=case["em"], update_sigma=True,
+                           convergence_threshold=case.get("iv_threshold"))
         m.fit(data)
         return {"T": np.asarray(m.T, float), "sigma": np.asarray(m.sigma, float)}
     m = sut.make_fa(case, em_iterations=case["em"])
